@@ -51,24 +51,25 @@ def smul (c : R) (x : Vec R) : Vec R := fun i => c * x i
 /-- `vᵀ P v` -/
 def quad (n : Nat) (P : Mat R) (v : Vec R) : R := dot n v (mulVec n P v)
 
-/-- tabulate the first `n` entries once (zero outside); `Props/C06.tabV_apply` -/
-def tabV (n : Nat) (v : Vec R) : Vec R :=
-  let t : Array R := Array.ofFn (n := n) fun i => v i.val
-  fun i => match t[i]? with | some a => a | none => 0
-
-/-- tabulate an `m × n` matrix once (zero outside) -/
-def tabM (m n : Nat) (A : Mat R) : Mat R :=
-  let t : Array (Array R) := Array.ofFn (n := m) fun i => Array.ofFn (n := n) fun j => A i.val j.val
-  fun i j => match t[i]? with
-    | some r => (match r[j]? with | some a => a | none => 0)
-    | none => 0
-
 def ofRows (a : Array (Array R)) : Mat R := fun i j =>
   match a[i]? with
   | some r => (match r[j]? with | some v => v | none => 0)
   | none => 0
 
 def ofArr (a : Array R) : Vec R := fun i => match a[i]? with | some v => v | none => 0
+
+def tabArr (n : Nat) (v : Vec R) : Array R := Array.ofFn (n := n) fun i => v i.val
+
+def tabRows (m n : Nat) (A : Mat R) : Array (Array R) :=
+  Array.ofFn (n := m) fun i => Array.ofFn (n := n) fun j => A i.val j.val
+
+/-- tabulate the first `n` entries once (zero outside); `Props/C06.tabV_apply`.
+    (`@[inline]`: where it is bound by a `let` of a data-returning definition the array is built
+    strictly, once; entries are then array reads.) -/
+@[inline] def tabV (n : Nat) (v : Vec R) : Vec R := ofArr (tabArr n v)
+
+/-- tabulate an `m × n` matrix once (zero outside) -/
+@[inline] def tabM (m n : Nat) (A : Mat R) : Mat R := ofRows (tabRows m n A)
 
 def toListV (n : Nat) (v : Vec R) : List R := (List.range n).map v
 def toListM (m n : Nat) (A : Mat R) : List (List R) := (List.range m).map fun i => (List.range n).map fun j => A i j
